@@ -61,6 +61,10 @@ def items(tier: str, seed: int) -> List[dict]:
     # 4b. extreme results: complete-suit deals give declarer 0 or 13 tricks (undoubled, doubled, redoubled; every vulnerability)
     for k, (a, rot) in enumerate(itertools.product(('open1C', 'second', 'doubled', 'slam', 'redoubled'), range(4))):
         its.append(dict(spec=scen.mk_spec([scen.board(0, a, D4[(k + seed) % 4], V4[(k + k // 4) % 4], deal=f'onesuit:{rot}', policy=POL[k % 2])]), d=0))
+    # 4c. the network delivers each message in two pieces (final LF separately); clients that stay connected after End of session
+    its.append(dict(spec=scen.mk_spec([scen.board(seed + 60, 'competitive', D4[(seed + 1) % 4], V4[(seed + 2) % 4], policy='lowest_held'), scen.board(seed + 61, 'passout', 'S', 'Both')],
+                                      fragment='crlf'), d=0, priority=True))
+    its.append(dict(spec=scen.mk_spec([scen.board(seed + 62, 'slam', D4[seed % 4], 'EW')], linger=True), d=0, priority=True))
     # 5. schedules
     p1 = scen.mk_spec([scen.board(seed, 'passout', D4[seed % 4], V4[seed % 4])])
     q1 = scen.mk_spec([scen.board(seed + 1, 'doubled', D4[(seed + 1) % 4], V4[(seed + 1) % 4], policy='lowest_held')])
